@@ -23,6 +23,15 @@ ck.regen()
 mods = ck.props_modules()
 if mods:
     ck.lean(mods)
+    ck.require_theorems([
+        'LbzVerif.Props.C05.deltaWindow_sound',
+        'LbzVerif.Props.C05.Tree.makeTree_kraft',
+        'LbzVerif.Props.C05.Mtf.imtf_sound',
+        'LbzVerif.Props.C05.Mtf.runAccum_sound',
+        'LbzVerif.Props.C05.emit_sound',
+        'LbzVerif.Props.C05.Parse.magic_enforced',
+        'LbzVerif.Props.C05.Parse.eof_rule',
+    ])
 inproc.run_libs(ck, ['w12_emit', 'w11_prefix', 'w10_mtf'])
 exe = ck.build_lbzip2(asan=False)
 evals = nontriv = 0
